@@ -89,6 +89,8 @@ public:
     set(const XalanDOMString&   theString)
     {
         m_value = theString;
+
+        clearCachedValues();
     }
 
     // These methods are inherited from XObject ...
